@@ -152,7 +152,19 @@ def run_crash(ps, w, menu, pinned_crash=None, recover=True):
             bad.append(("C10:other-pid-harmed-by-crash", ""))
     observations = [p[0] for p in post["problems"] if p[0] in ("dup-line", "foreign-line", "unterminated-line")]
     if recover and i is not None:
-        s2 = w.instance()
+        # a new process opens the store: the real constructor runs on what the crash left behind
+        try:
+            s2 = w.module().FileHashStore(w.props("/s"))
+        except symfs.Crash:
+            raise
+        except Exception as e:   # noqa
+            bad.append(("C10:store-cannot-be-opened-after-the-crash", type(e).__name__, str(e)[:100]))
+            s2 = w.instance()
+        post0 = w.post()
+        ok0, _ = ps.valid(frame_after_crash(w, pre, post0, i))
+        nob += 1
+        if not ok0:
+            bad.append(("C10:other-pid-harmed-by-reopening-the-store", ""))
         # (b) never wrong bytes
         try:
             st = s2.retrieve_object(pid)
